@@ -330,6 +330,7 @@ func init() {
 			ruleTagBounds(c)
 			ruleTagPreserve(c)
 			ruleTagHelpers(c)
+			ruleTagMaxIndex(c)
 			ruleTagRun(c)
 			ruleTagRound6(c)
 			ruleTagRound6b(c)
